@@ -68,12 +68,19 @@ func runClockCase(rq *request) M {
 		if i == 1 || i == 4 {
 			continue
 		}
-		f, ok := x.(float64)
-		if !ok {
-			ev["out"] = M{"o": "bad", "why": "non-numeric clock value"}
+		var n int64
+		switch v := x.(type) {
+		case float64:
+			n = int64(v)
+		case int64:
+			n = v
+		case int:
+			n = int64(v)
+		default:
+			ev["out"] = M{"o": "bad", "why": fmt.Sprintf("non-numeric clock value %T", x)}
 			return ev
 		}
-		vals = append(vals, splitMs(int64(f)))
+		vals = append(vals, splitMs(n))
 	}
 	ev["vals"] = vals
 	ev["out"] = M{"o": "val"}
